@@ -409,6 +409,13 @@ def run(sc) -> RunResult:
             res.hit("inconclusive:initial_no_candidate")
             res.log("initial", "no-candidate", str(e)[:60])
             return res
+        except RuntimeError as e:
+            # a deliberate give-up (e.g. "no feasible partition found after N steps"): nothing was
+            # returned, and the property only speaks about returned values
+            res.inconclusive = True
+            res.hit("inconclusive:initial_gave_up")
+            res.log("initial", "gave-up", str(e)[:60])
+            return res
         except Exception as e:
             res.violate("C18/unexpected-exception", f"initial() raised {type(e).__name__}: {str(e)[:120]} [{tag}]")
             return res
